@@ -6,6 +6,7 @@
 import ApiFu.C07.Lemmas
 import ApiFu.C07.LemmasScan
 import ApiFu.C07.LemmasBlock
+import ApiFu.C07.LemmasMain
 
 namespace ApiFu.C07
 
@@ -115,5 +116,146 @@ theorem token_extents (b : Bool) (src : List Nat) :
   refine ⟨fun t ht => ?_, h.2.2.2⟩
   have := h.2.2.1 t ht
   exact ⟨this.2.1, this.2.2.1, this.2.2.2.2.1, this.2.2.2.2.2⟩
+
+/-! ## The scanner is the reference lexer -/
+
+/-- **scan_eq_spec** — for every valid UTF-8 text, in both modes: if the reference lexer (longest match
+    over the June-2018 lexical grammar, `Spec.lexAll`) lexes the whole text, the scanner returns exactly
+    its tokens — kind, offset, length, line, column, decoded string value (escapes, `\uXXXX`,
+    BlockStringValue) — and reports no error; if the reference meets a lexical error (unterminated
+    string, invalid escape, character outside SourceCharacter, stray punctuation, dangling exponent,
+    misplaced BOM), the scanner reports at least one error, and the tokens it returned before the point
+    of the error are exactly the reference's. Never a silently different value. -/
+theorem scan_eq_spec (b : Bool) (src : List Nat) (hv : ∀ r ∈ src, r < badBase) :
+    match Spec.lexAll b src with
+    | .ok ts => scanAll b src = (ts, [])
+    | .error ts => (∃ more, (scanAll b src).1 = ts ++ more) ∧ (scanAll b src).2 ≠ [] := by
+  have hi := Inv.init src
+  have h := scanLoop_eq_spec src hv (src.length + 1) (src.length + 1) (St.init src)
+    (by simp [St.init]) (by simp [St.init]) hi
+  have hf := scanLoop_filter src.length (src.length + 1) (St.init src) (by simp [St.init]) (by simp [St.init])
+  have hoff : (St.init src).off = 0 := rfl
+  have herr : (St.init src).errs = [] := rfl
+  rw [hoff, herr] at h
+  unfold Spec.lexAll scanAll
+  cases b with
+  | true =>
+    generalize Spec.lexFrom src (src.length + 1) 0 = res at h ⊢
+    generalize scanLoop true (src.length + 1) (St.init src) = r at h ⊢
+    obtain ⟨ts2, sf⟩ := r
+    cases res with
+    | ok ts =>
+      simp only [Spec.Res.filterIgnored, if_true] at h ⊢
+      rw [h.1, h.2]
+    | error ts =>
+      simp only [Spec.Res.filterIgnored, if_true] at h ⊢
+      refine ⟨h.1, ?_⟩
+      intro he; rw [he] at h; simp at h
+  | false =>
+    generalize Spec.lexFrom src (src.length + 1) 0 = res at h ⊢
+    generalize scanLoop true (src.length + 1) (St.init src) = r at h hf ⊢
+    generalize scanLoop false (src.length + 1) (St.init src) = r0 at hf ⊢
+    obtain ⟨ts2, sf⟩ := r
+    obtain ⟨ts0, sf0⟩ := r0
+    simp only at hf h
+    obtain ⟨hf1, hf2⟩ := hf
+    subst hf2
+    cases res with
+    | ok ts =>
+      simp only [Spec.Res.filterIgnored, Bool.false_eq_true, if_false] at h ⊢
+      rw [hf1, h.1, h.2]
+    | error ts =>
+      simp only [Spec.Res.filterIgnored, Bool.false_eq_true, if_false] at h ⊢
+      obtain ⟨⟨more, hm⟩, he⟩ := h
+      refine ⟨⟨more.filter (fun t => !t.kind.isIgnored), by rw [hf1, hm, List.filter_append]⟩, ?_⟩
+      intro he'; rw [he'] at he; simp at he
+
+/-- Non-vacuity, accepting side: a text with every token class; the reference accepts it. -/
+example : (match Spec.lexAll true [0xFEFF, 123, 97, 58, 45, 49, 46, 53, 101, 43, 50, 44, 32, 34, 92, 117, 48, 48, 52, 49, 34, 13, 10, 46, 46, 46, 35, 33] with
+    | .ok ts => ts.map (fun t => (t.kind.code, t.len)) | .error _ => []) =
+    [(6, 1), (1, 1), (2, 1), (1, 1), (4, 7), (10, 1), (7, 1), (5, 8), (8, 2), (1, 3), (9, 2)] := by
+  decide
+
+/-- Non-vacuity, rejecting side (and the witnesses of the repaired defects F-07c, F-07e): a control
+    character in a comment; `"""\\"""` is unterminated. -/
+example : Spec.lexAll true [35, 1] = .error [] ∧ Spec.lexAll true [34, 34, 34, 92, 92, 34, 34, 34] = .error [] ∧
+    (scanAll true [35, 1]).2 ≠ [] ∧ (scanAll true [34, 34, 34, 92, 92, 34, 34, 34]).2 ≠ [] := by
+  decide
+
+/-- **mode_filter** — scanning with ignored tokens skipped (`mode = 0`, what the parser uses) yields
+    exactly the non-ignored tokens of the `ScanIgnored` run, and the same errors, for every text (valid
+    UTF-8 or not). -/
+theorem mode_filter (src : List Nat) :
+    (scanAll false src).1 = (scanAll true src).1.filter (fun t => !t.kind.isIgnored) ∧
+    (scanAll false src).2 = (scanAll true src).2 := by
+  have hf := scanLoop_filter src.length (src.length + 1) (St.init src) (by simp [St.init]) (by simp [St.init])
+  unfold scanAll
+  generalize scanLoop true (src.length + 1) (St.init src) = r at hf ⊢
+  generalize scanLoop false (src.length + 1) (St.init src) = r0 at hf ⊢
+  obtain ⟨ts2, sf⟩ := r
+  obtain ⟨ts0, sf0⟩ := r0
+  simp only at hf ⊢
+  exact ⟨hf.1, by rw [hf.2]⟩
+
+/-- **token_eq_spec** — the same, one iteration of `Scan` at a time (any state on a valid text): where the
+    reference finds a token the scanner returns that kind and value having consumed exactly its `n ≥ 1`
+    code points and recorded nothing; where the reference finds none the scanner records an error. -/
+theorem token_eq_spec (s : St) (hv : ∀ r ∈ s.rest, r < badBase) (hne : s.rest ≠ []) :
+    (∀ k n v, Spec.token? (s.off == 0) s.rest = some (k, n, v) →
+      scanToken s = (k, v, consumeN n s) ∧ 1 ≤ n ∧ n ≤ s.rest.length ∧ k ≠ .invalid) ∧
+    (Spec.token? (s.off == 0) s.rest = none → s.errs.length < (scanToken s).2.2.errs.length) :=
+  scanToken_spec s hv hne
+
+/-! ## Strings and numbers (the token classes the statement singles out) -/
+
+/-- **string_decode** — a `"` on valid UTF-8: if what follows is a StringValue of the grammar (quoted:
+    StringCharacter* with the escape table and `\uXXXX`; block: BlockStringCharacter* with `\"""`), the
+    scanner consumes exactly it, records no error, and returns exactly the specified value (for block
+    strings `BlockStringValue` of the raw value); otherwise it records an error. -/
+theorem string_decode (s : St) (hv : ∀ r ∈ s.rest, r < badBase) {rest : List Nat} (hw : s.rest = 34 :: rest) :
+    (∀ k n v, specString rest = some (k, n, v) →
+        consumeStringValue s = (v, consumeN n s) ∧ k = .stringValue ∧ 1 ≤ n ∧ n ≤ s.rest.length) ∧
+    (specString rest = none → s.errs.length < (consumeStringValue s).2.errs.length) :=
+  ⟨fun _ _ _ h => consumeStringValue_some s hv hw h, fun h => consumeStringValue_none s hv hw h⟩
+
+/-- **escape_table** — the decoding of every two-character escape is the specification's table, and a
+    backslash followed by anything else (except `u`) is an error. -/
+theorem escape_table (s : St) (v : List Nat) {c : Nat} {rest : List Nat} (hw : s.rest = c :: rest) (hc : c < badBase) :
+    (∀ u, Spec.escapedCharacter? c = some u → strStep false (escSS s v) = mkSS (consumeN 1 s) (v ++ [u])) ∧
+    (Spec.escapedCharacter? c = none → c ≠ 117 → strStep false (escSS s v) = mkSS (consumeRune s.errorf) v) ∧
+    (∀ u, Spec.escapedCharacter? c = some u ↔
+      (c, u) ∈ [(34, 34), (92, 92), (47, 47), (98, 8), (102, 12), (110, 10), (114, 13), (116, 9)]) := by
+  refine ⟨fun u h => estep_char v hw hc h, fun h hu => estep_bad v hw hc h hu, fun u => ⟨fun h => ?_, fun h => ?_⟩⟩
+  · rcases escaped_cases h with h | h | h | h | h | h | h | h <;> obtain ⟨rfl, rfl⟩ := h <;> simp
+  · simp only [List.mem_cons, Prod.mk.injEq, List.mem_nil_iff, or_false] at h
+    rcases h with h | h | h | h | h | h | h | h <;> obtain ⟨rfl, rfl⟩ := h <;> decide
+
+/-- **unicode_escape** — `\u` followed by four hexadecimal digits decodes to the code unit they spell
+    (U+FFFD for a lone surrogate, as Go's `string(rune)`; not claimed either way, DESIGN F-07d); fewer
+    than four hexadecimal digits record exactly one error. -/
+theorem unicode_escape (t : St) (hv : ∀ r ∈ t.rest, r < badBase) :
+    (∀ code, hexPrefix 4 t.rest 0 = some code →
+        hexLoop 4 t 0 = (consumeN 4 t, code) ∧ code < 0x10000 ∧ runeToString code = Spec.codeUnit code) ∧
+    (hexPrefix 4 t.rest 0 = none → (hexLoop 4 t 0).1.errs.length = t.errs.length + 1) := by
+  have h := hexLoop_eq 4 t 0 hv
+  constructor
+  · intro code hc
+    rw [hc] at h
+    have hlt : code < 0x10000 := by have := hexPrefix_lt 4 t.rest 0 code hc; omega
+    exact ⟨h, hlt, runeToString_eq hlt⟩
+  · intro hn
+    rw [hn] at h
+    exact h
+
+/-- **number_eq_spec** — at `-` or a digit on valid UTF-8 the scanner's Int/Float classification and the
+    extent are those of the reference's longest match `Spec.number?` (IntegerPart, then FractionalPart if
+    it matches, then ExponentPart if it matches; Float iff one of the two matched); when the reference
+    rejects (a lone `-`, or an exponent indicator without digits — D1) an error is recorded. -/
+theorem number_eq_spec (s : St) (hv : ∀ r ∈ s.rest, r < badBase) {c : Nat} {w : List Nat} (hw : s.rest = c :: w)
+    (hc : c = 45 ∨ isDigit c = true) :
+    match Spec.number? s.rest with
+    | some (isFloat, n) => scanDefault s = (if isFloat then .floatValue else .intValue, consumeN n s)
+    | none => s.errs.length < (scanDefault s).2.errs.length :=
+  scanDefault_number s hv hw hc
 
 end ApiFu.C07
